@@ -1,6 +1,6 @@
 (* C14 — functions mean their body, are defined once; inconsistent bodies are rejected.  Property theorems only. *)
 From Coq Require Import List String NArith Arith Bool.
-From Spox Require Import Base IR Show Build Sem Plan Validate BuildFacts SemFacts FuncFacts.
+From Spox Require Import Base IR Show Build Sem Plan Validate BuildFacts SemFacts FuncFacts CompilePres ScopeFacts EmitFacts FunDefFacts.
 Import ListNotations.
 
 (* The returned model has exactly one definition per used (domain, name): every function called from the main graph, from a
@@ -63,3 +63,22 @@ Proof. intros p r m i o H Hi Ho p' f Hf val dv opsem Hext av. apply build_checke
   assert (Ha : acyclic_b p' (f_bodyid f) = true) by (unfold check_plan in Hc; apply andb_prop in Hc; destruct Hc as [Hc _]; apply andb_prop in Hc; tauto).
   exact (plan_sem p' (f_bodyid f) Ha val dv opsem Hext _ Hc av). Qed.
 Print Assumptions C14_call_means_body.
+
+(* Every call has a definition, by construction (no validator): each function-call node emitted anywhere in the graph tree of the
+   returned model - main graph or control-flow body at any depth - has a FunctionProto of its (domain, name): the loop step that
+   emits the call records the function, the lists of bodies are appended to those of the enclosing graph, and to_model keeps one
+   definition per key. *)
+Theorem C14_every_call_has_a_definition :
+  forall p r m inputs outputs,
+  build_public p r = inl m -> all_vars (r_inputs r) = Some inputs -> all_vars (r_outputs r) = Some outputs ->
+  exists args, forall n body fi fo fa, In (NReal n) (srcs_graph (mmain m)) ->
+    kind (getn (with_main p (Some args) outputs) n) = KFunc body fi fo fa ->
+    exists d, In d (mfunctions m) /\ f_domain d = domain (getn p n) /\ f_name d = ident (getn p n).
+Proof. exact build_public_calls_defined. Qed.
+Print Assumptions C14_every_call_has_a_definition.
+
+Theorem C14_functions_recorded_at_every_depth :
+  forall p un args_of own_of fbuild fuel s g prefix vi mg s' rq fs,
+    compile p un args_of own_of fbuild fuel s g prefix vi = inl (mg, s', rq, fs) -> Covered p (srcs_graph mg) fs.
+Proof. exact compile_functions_recorded. Qed.
+Print Assumptions C14_functions_recorded_at_every_depth.
